@@ -242,6 +242,16 @@ fn real_forwarder_cases(rep: &Arc<Reporter>, args: &Args) {
     });
 }
 
+pub fn scenarios(rep: &Arc<Reporter>, args: &Args) {
+    let dir = env::work_dir(&args.root, "c10");
+    let ctx = Arc::new(env::make_ctx(&dir, env::CtxOpts {
+        tweak: Some(Box::new(|b| b.icmp(trusttunnel::settings::IcmpSettings::builder().interface_name("lo").build().unwrap()))),
+        ..Default::default()
+    }));
+    scripted_matrix(rep, args, &ctx);
+    real_forwarder_cases(rep, args);
+}
+
 pub fn run(args: &Args) -> i32 {
     let rep = Arc::new(Reporter::new(
         args,
@@ -254,12 +264,6 @@ pub fn run(args: &Args) -> i32 {
     rep.assume("descriptor exhaustion is injected as Io(EMFILE) at the forwarder boundary, not by exhausting descriptors");
     rep.assume("'never completes' is answered after the establishment timeout under the paused clock (timing itself is judged by C14 part B)");
     rep.assume("HTTP/3 is not exercised in this check");
-    let dir = env::work_dir(&args.root, "c10");
-    let ctx = Arc::new(env::make_ctx(&dir, env::CtxOpts {
-        tweak: Some(Box::new(|b| b.icmp(trusttunnel::settings::IcmpSettings::builder().interface_name("lo").build().unwrap()))),
-        ..Default::default()
-    }));
-    scripted_matrix(&rep, args, &ctx);
-    real_forwarder_cases(&rep, args);
+    scenarios(&rep, args);
     rep.finish()
 }
